@@ -59,14 +59,15 @@ Print Assumptions preemph_leaves_generator.
 
 (* ---------------- Dither.apply ---------------- *)
 
-(* result = cast_back(cast_to_float64 x + noise) where noise = 0 + c * g is built
-   from the next [length x] deviates of the generator only *)
+(* result = cast_back(rint_if_int(cast_to_float64 x + noise)) where noise = 0 + c * g
+   is built from the next [length x] deviates of the generator only and
+   [rint_if_int] rounds to the nearest integer for the integer dtypes (np.rint) *)
 Theorem dither_values : forall V RS (O : ops V) (G : rngm V RS) c ip ax d x r,
   axis_ok ax = true ->
   let s := run O G c ip ax dither_prog (Build_arr d x) r in
   s_err s = false /\
-  out_arr s = Some (Build_arr d (conv O F64 d
-     (zipw (o_add O) (conv O d F64 x) (noise_of O c (g_draw G r (length x)))))) /\
+  out_arr s = Some (Build_arr d (conv O F64 d (rint_if_int O d
+     (zipw (o_add O) (conv O d F64 x) (noise_of O c (g_draw G r (length x))))))) /\
   s_rng s = g_adv G r (length x).
 Proof. exact @dither_values_l. Qed.
 Print Assumptions dither_values.
@@ -100,9 +101,9 @@ Theorem dither_noise_function_of_state :
   axis_ok ax = true -> axis_ok ax' = true -> length x = length x' ->
   exists nz, length nz = length x /\
     out_arr (run O G c ip ax dither_prog (Build_arr d x) r) =
-      Some (Build_arr d (conv O F64 d (zipw (o_add O) (conv O d F64 x) nz))) /\
+      Some (Build_arr d (conv O F64 d (rint_if_int O d (zipw (o_add O) (conv O d F64 x) nz)))) /\
     out_arr (run O G c ip' ax' dither_prog (Build_arr d' x') r) =
-      Some (Build_arr d' (conv O F64 d' (zipw (o_add O) (conv O d' F64 x') nz))).
+      Some (Build_arr d' (conv O F64 d' (rint_if_int O d' (zipw (o_add O) (conv O d' F64 x') nz)))).
 Proof. exact @dither_noise_function_of_state_l. Qed.
 Print Assumptions dither_noise_function_of_state.
 
@@ -121,72 +122,76 @@ Print Assumptions axis_only_warns.
 (* ---------------- exact arithmetic: any commutative ring ---------------- *)
 
 Theorem dither_zero_identity :
-  forall R rO rI radd rmul rsub ropp, ring_theory rO rI radd rmul rsub ropp (@eq R) ->
+  forall R rO rI radd rmul rsub ropp rrint, ring_theory rO rI radd rmul rsub ropp (@eq R) ->
   forall RS (G : rngm R RS) ip ax d x r, axis_ok ax = true ->
-  out_arr (run (ring_ops R rO radd rmul rsub) G rO ip ax dither_prog (Build_arr d x) r)
+  is_float d = true \/ Forall (fun v => rrint v = v) x ->
+  out_arr (run (ring_ops R rO radd rmul rsub rrint) G rO ip ax dither_prog (Build_arr d x) r)
   = Some (Build_arr d x).
 Proof. exact dither_zero_identity_l. Qed.
 Print Assumptions dither_zero_identity.
 
-(* output = signal + coeff * g, g the unit deviates of the state *)
+(* output = signal + coeff * g (rounded to integers for the integer dtypes), g the
+   unit deviates of the state *)
 Theorem dither_linear :
-  forall R rO rI radd rmul rsub ropp, ring_theory rO rI radd rmul rsub ropp (@eq R) ->
+  forall R rO rI radd rmul rsub ropp rrint, ring_theory rO rI radd rmul rsub ropp (@eq R) ->
   forall RS (G : rngm R RS) c ip ax d x r, axis_ok ax = true ->
-  out_arr (run (ring_ops R rO radd rmul rsub) G c ip ax dither_prog (Build_arr d x) r) =
-  Some (Build_arr d (zipw radd x (map (rmul c) (g_draw G r (length x))))).
+  out_arr (run (ring_ops R rO radd rmul rsub rrint) G c ip ax dither_prog (Build_arr d x) r) =
+  Some (Build_arr d (rint_if_int (ring_ops R rO radd rmul rsub rrint) d
+                      (zipw radd x (map (rmul c) (g_draw G r (length x)))))).
 Proof. exact dither_linear_l. Qed.
 Print Assumptions dither_linear.
 
 Theorem dither_scales_with_coeff :
-  forall R rO rI radd rmul rsub ropp, ring_theory rO rI radd rmul rsub ropp (@eq R) ->
-  forall RS (G : rngm R RS) a c ip ax d x r y ya, axis_ok ax = true ->
-  out_arr (run (ring_ops R rO radd rmul rsub) G c ip ax dither_prog (Build_arr d x) r) = Some y ->
-  out_arr (run (ring_ops R rO radd rmul rsub) G (rmul a c) ip ax dither_prog (Build_arr d x) r) = Some ya ->
+  forall R rO rI radd rmul rsub ropp rrint, ring_theory rO rI radd rmul rsub ropp (@eq R) ->
+  forall RS (G : rngm R RS) a c ip ax d x r y ya, is_float d = true -> axis_ok ax = true ->
+  out_arr (run (ring_ops R rO radd rmul rsub rrint) G c ip ax dither_prog (Build_arr d x) r) = Some y ->
+  out_arr (run (ring_ops R rO radd rmul rsub rrint) G (rmul a c) ip ax dither_prog (Build_arr d x) r) = Some ya ->
   zipw rsub (a_data ya) x = map (rmul a) (zipw rsub (a_data y) x).
 Proof. exact dither_scales_l. Qed.
 Print Assumptions dither_scales_with_coeff.
 
 Theorem dither_signal_independent :
-  forall R rO rI radd rmul rsub ropp, ring_theory rO rI radd rmul rsub ropp (@eq R) ->
+  forall R rO rI radd rmul rsub ropp rrint, ring_theory rO rI radd rmul rsub ropp (@eq R) ->
   forall RS (G : rngm R RS) c ip ip' ax ax' d d' x x' r y y',
+  is_float d = true -> is_float d' = true ->
   axis_ok ax = true -> axis_ok ax' = true -> length x = length x' ->
-  out_arr (run (ring_ops R rO radd rmul rsub) G c ip ax dither_prog (Build_arr d x) r) = Some y ->
-  out_arr (run (ring_ops R rO radd rmul rsub) G c ip' ax' dither_prog (Build_arr d' x') r) = Some y' ->
+  out_arr (run (ring_ops R rO radd rmul rsub rrint) G c ip ax dither_prog (Build_arr d x) r) = Some y ->
+  out_arr (run (ring_ops R rO radd rmul rsub rrint) G c ip' ax' dither_prog (Build_arr d' x') r) = Some y' ->
   zipw rsub (a_data y) x = zipw rsub (a_data y') x'.
 Proof. exact dither_signal_independent_l. Qed.
 Print Assumptions dither_signal_independent.
 
 Theorem preemph_superposition :
-  forall R rO rI radd rmul rsub ropp, ring_theory rO rI radd rmul rsub ropp (@eq R) ->
+  forall R rO rI radd rmul rsub ropp rrint, ring_theory rO rI radd rmul rsub ropp (@eq R) ->
   forall c a b x x', length x = length x' ->
-  preemph_spec (ring_ops R rO radd rmul rsub) c (zipw (fun u v => radd (rmul a u) (rmul b v)) x x') =
+  preemph_spec (ring_ops R rO radd rmul rsub rrint) c (zipw (fun u v => radd (rmul a u) (rmul b v)) x x') =
   zipw (fun u v => radd (rmul a u) (rmul b v))
-       (preemph_spec (ring_ops R rO radd rmul rsub) c x) (preemph_spec (ring_ops R rO radd rmul rsub) c x').
+       (preemph_spec (ring_ops R rO radd rmul rsub rrint) c x) (preemph_spec (ring_ops R rO radd rmul rsub rrint) c x').
 Proof. exact preemph_superposition_l. Qed.
 Print Assumptions preemph_superposition.
 
 Theorem preemph_invertible :
-  forall R rO rI radd rmul rsub ropp, ring_theory rO rI radd rmul rsub ropp (@eq R) ->
-  forall c x, deemph R radd rmul c rO (preemph_spec (ring_ops R rO radd rmul rsub) c x) = x.
+  forall R rO rI radd rmul rsub ropp rrint, ring_theory rO rI radd rmul rsub ropp (@eq R) ->
+  forall c x, deemph R radd rmul c rO (preemph_spec (ring_ops R rO radd rmul rsub rrint) c x) = x.
 Proof. exact preemph_invertible_l. Qed.
 Print Assumptions preemph_invertible.
 
 (* torch functional forms = numpy classes *)
 Theorem torch_preemph_eq :
-  forall R rO rI radd rmul rsub ropp, ring_theory rO rI radd rmul rsub ropp (@eq R) ->
+  forall R rO rI radd rmul rsub ropp rrint, ring_theory rO rI radd rmul rsub ropp (@eq R) ->
   forall RS (G : rngm R RS) c ip ax x r, axis_ok ax = true ->
   option_map (@a_data R)
-    (out_arr (run (ring_ops R rO radd rmul rsub) G c ip ax preemph_prog (Build_arr F64 x) r)) =
-  fst (trun (ring_ops R rO radd rmul rsub) G c torch_preemph_prog x r).
+    (out_arr (run (ring_ops R rO radd rmul rsub rrint) G c ip ax preemph_prog (Build_arr F64 x) r)) =
+  fst (trun (ring_ops R rO radd rmul rsub rrint) G c torch_preemph_prog x r).
 Proof. exact torch_preemph_eq_l. Qed.
 Print Assumptions torch_preemph_eq.
 
 Theorem torch_dither_eq :
-  forall R rO rI radd rmul rsub ropp, ring_theory rO rI radd rmul rsub ropp (@eq R) ->
+  forall R rO rI radd rmul rsub ropp rrint, ring_theory rO rI radd rmul rsub ropp (@eq R) ->
   forall RS (G : rngm R RS) c ip ax x r, axis_ok ax = true ->
   option_map (@a_data R)
-    (out_arr (run (ring_ops R rO radd rmul rsub) G c ip ax dither_prog (Build_arr F64 x) r)) =
-  fst (trun (ring_ops R rO radd rmul rsub) G c torch_dither_prog x r).
+    (out_arr (run (ring_ops R rO radd rmul rsub rrint) G c ip ax dither_prog (Build_arr F64 x) r)) =
+  fst (trun (ring_ops R rO radd rmul rsub rrint) G c torch_dither_prog x r).
 Proof. exact torch_dither_eq_l. Qed.
 Print Assumptions torch_dither_eq.
 
@@ -213,7 +218,7 @@ Theorem preemph_f64_exact : forall (cf : b64) (m k j N : Z),
   forall ip ax x r, axis_ok ax = true -> Forall (dy j N) x ->
   exists y, out_arr (run nops ngen (VF cf) ip ax preemph_prog (Build_arr F64 x) r)
             = Some (Build_arr F64 y) /\
-            map vR y = preemph_spec F64Proofs.Rops (B2R cf) (map vR x).
+            map vR y = preemph_spec Stats.Rops (B2R cf) (map vR x).
 Proof. exact preemph_f64_exact_l. Qed.
 Print Assumptions preemph_f64_exact.
 
@@ -223,7 +228,7 @@ Theorem preemph_int_exact : forall (cf : b64) (m k N : Z) d zs ip ax r,
   (0 <= k <= 1074)%Z -> ((2 ^ k + Z.abs m) * N < 2 ^ 53)%Z ->
   is_float d = false -> axis_ok ax = true -> Forall (fun z => (Z.abs z <= N)%Z) zs ->
   out_arr (run nops ngen (VF cf) ip ax preemph_prog (Build_arr d (map VI zs)) r) =
-  Some (Build_arr d (map (fun y => VI (Ztrunc y)) (preemph_spec F64Proofs.Rops (B2R cf) (map IZR zs)))).
+  Some (Build_arr d (map (fun y => VI (Ztrunc y)) (preemph_spec Stats.Rops (B2R cf) (map IZR zs)))).
 Proof. exact preemph_int_exact_l. Qed.
 Print Assumptions preemph_int_exact.
 
@@ -291,20 +296,40 @@ Theorem dither_f64_value : forall (cf : b64) (x g : list b64) ip ax i,
 Proof. exact dither_f64_value_l. Qed.
 Print Assumptions dither_f64_value.
 
-(* FINDING (integer dtypes): the returned noise is NOT zero-mean / signal
-   independent, because the cast back truncates toward zero: deviates +1/2 and
-   -1/2 (coeff 1) change the int16 sample 1000 by 0 and -1, the sample -1000 by
-   +1 and 0 *)
-Theorem dither_int_noise_biased_refuted :
+(* integer dtypes (after fix 60e9a5c): element by element the result is
+   rint(float64(x) + (0 + c*g)), ties to even, whatever the values *)
+Theorem dither_int_value : forall (c : val) d zs ip ax g,
+  is_float d = false -> axis_ok ax = true ->
+  out_arr (run nops ngen c ip ax dither_prog (Build_arr d (map VI zs)) g) =
+  Some (Build_arr d (map (fun v => VI (ZnearestE (vR v)))
+     (zipw (o_add nops) (map (fun z => VF (mk64 z 0)) zs)
+           (noise_of nops c (g_draw ngen g (length zs)))))).
+Proof. exact dither_int_value_l. Qed.
+Print Assumptions dither_int_value.
+
+(* witness on the repaired code: deviates +3/4, -3/4 move 1000 and -1000 by +1, -1 *)
+Theorem dither_int_noise_symmetric_witness :
   let c := VF (mk64 1 0) in
   let run1 x g := out_data (run nops ngen c false None dither_prog (Build_arr I16 [VI x]) [VF g]) in
+  run1 1000%Z (mk64 3 (-2)) = [RInt 1001] /\ run1 1000%Z (mk64 (-3) (-2)) = [RInt 999] /\
+  run1 (-1000)%Z (mk64 3 (-2)) = [RInt (-999)] /\ run1 (-1000)%Z (mk64 (-3) (-2)) = [RInt (-1001)].
+Proof. exact dither_int_noise_symmetric_l. Qed.
+Print Assumptions dither_int_noise_symmetric_witness.
+
+(* REGRESSION RECORD about the code BEFORE fix 60e9a5c ([old_dither_prog], written
+   out by hand in F64Proofs.v, NOT the current source): the truncating cast biased
+   the returned noise by -sign(x)/2 *)
+Theorem old_dither_int_noise_biased_refuted :
+  let c := VF (mk64 1 0) in
+  let run1 x g := out_data (run nops ngen c false None old_dither_prog (Build_arr I16 [VI x]) [VF g]) in
   run1 1000%Z (mk64 1 (-1)) = [RInt 1000] /\ run1 1000%Z (mk64 (-1) (-1)) = [RInt 999] /\
   run1 (-1000)%Z (mk64 1 (-1)) = [RInt (-999)] /\ run1 (-1000)%Z (mk64 (-1) (-1)) = [RInt (-1000)].
-Proof. exact dither_int_noise_biased_l. Qed.
-Print Assumptions dither_int_noise_biased_refuted.
+Proof. exact old_dither_int_noise_biased_l. Qed.
+Print Assumptions old_dither_int_noise_biased_refuted.
 
 (* ---------------- sample moments of the noise (reals) ---------------- *)
 Theorem dither_moments : forall RS (G : rngm R RS) c ip ax d x r y, axis_ok ax = true ->
+  is_float d = true ->
   out_arr (run Stats.Rops G c ip ax dither_prog (Build_arr d x) r) = Some y ->
   let nz := zipw Rminus (a_data y) x in
   let g := g_draw G r (length x) in
@@ -312,3 +337,16 @@ Theorem dither_moments : forall RS (G : rngm R RS) c ip ax d x r y, axis_ok ax =
   (mean g = 0 -> std g = 1 -> mean nz = 0 /\ std nz = Rabs c).
 Proof. exact dither_moments_l. Qed.
 Print Assumptions dither_moments.
+
+(* integer dtypes over the reals: for integer samples the returned-minus-input
+   noise is rint(c*z) - the same for every signal, and odd in the deviate (so
+   symmetric about zero like the deviates); [rrint] is round-half-even *)
+Theorem dither_int_noise : forall RS (G : rngm R RS) c ip ax d ks r y, axis_ok ax = true ->
+  is_float d = false ->
+  let g := g_draw G r (length ks) in
+  Forall (fun z => Rabs (c * z - rrint (c * z)) < / 2) g ->
+  out_arr (run Stats.Rops G c ip ax dither_prog (Build_arr d (map IZR ks)) r) = Some y ->
+  zipw Rminus (a_data y) (map IZR ks) = map (fun z => rrint (c * z)) g /\
+  (forall z, In z g -> rrint (c * - z) = - rrint (c * z)).
+Proof. exact dither_int_noise_l. Qed.
+Print Assumptions dither_int_noise.
